@@ -21,3 +21,6 @@ prop('C14', ['A3'], 'immutability', ['histories'])
 prop('C17', ['L1', 'L3', 'L4', 'L5', 'T3'], 'concurrency', ['linearizability'])
 
 prop('C12', ['G1', 'G2', 'G5', 'K6', 'L4'], 'registry', ['histories'])
+
+prop('C15', ['E1', 'E5', 'E6', 'I2', 'A5'], 'failing callbacks', ['refcounts'])
+prop('CX1', ['I1', 'I2', 'I3', 'S3', 'A1'], 'tmp', [])
